@@ -282,7 +282,11 @@ func genTaskCase(r *Rng, paths []string) TaskCase {
 }
 
 func checkC01(ctx *Ctx) {
-	ctx.Res.Rule = "one real task per case: 1-2 outputs (plain and nested paths), random behaviour (0-4 chunked writes to outputs / extra files, exit ok|code|SIGKILL), optional pre-existing output, killed at one of 13 instrumented points (or run to the end); non-trivial = the command writes something; distinct by full case. Each case checks the property on the real files and compares the footprint with the model state for that point."
+	defer func() {
+		restartOnLeftover(ctx, true)
+		restartOnLeftover(ctx, false)
+	}()
+	ctx.Res.Rule = "one real task per case: 1-2 outputs (plain and nested paths), random behaviour (0-4 chunked writes to outputs / extra files, exit ok|code|SIGKILL), optional pre-existing output, killed at one of 13 instrumented points (or run to the end), plus the history 'killed in mid-command, restarted without cleanup' with an appending and an idempotent command; non-trivial = the command writes something; distinct by full case. Each case checks the property on the real files and compares the footprint with the model state for that point."
 	r := NewRng(ctx.Seed)
 	paths := []string{"a.txt", "b.dat", "sub/c.txt", "d/e/f.txt", "@/abs/g.txt", "x_y-z.out", "@/abs2/h.i"}
 	cases := []TaskCase{}
@@ -322,6 +326,36 @@ func checkC01(ctx *Ctx) {
 		ctx.Res.Note("the task model instantiated with the extracted record violates C01: " + resp)
 	}
 	ctx.Res.Extra["sem"] = ctx.Drv.Ask("sem")
+}
+
+// history: a run killed while its command had written part of its output, then a restart without any cleanup. Whatever
+// the restart does (scipipe refuses it), nothing but the complete output of one successful command may appear at
+// the final path
+func restartOnLeftover(ctx *Ctx, appendCmd bool) {
+	cmd := "( cat {i:in} > /dev/null ; printf AAAA >> {o:out} ; sleep 3 ; printf BBBB >> {o:out} )"
+	if !appendCmd {
+		cmd = "( cat {i:in} > /dev/null ; test -s {o:out} || ( printf AAAA > {o:out} ; sleep 3 ; printf BBBB >> {o:out} ) )"
+	}
+	d := &Desc{Name: "c01restart", Max: 2, Nodes: []Node{{Name: "src", Kind: "filesource", Paths: []string{"r.txt"}},
+		{Name: "p", Kind: "proc", Cmd: cmd, Outs: map[string]string{"out": "{i:in}.out"}}},
+		Edges: []Edge{{From: "src.out", To: "p.in"}}}
+	r1 := RunWorkflow(d, RunOpts{Pre: map[string]string{"r.txt": "r\n"}, Timeout: 1500e6, NoRetry: true})
+	defer os.RemoveAll(r1.Dir)
+	ctx.Res.Eval(fmt.Sprintf("restart on a leftover temp dir (append=%v)", appendCmd), true, appendCmd)
+	ctx.Res.Count("history=killed-mid-command,restart-without-cleanup")
+	partial, _ := filepath.Glob(filepath.Join(r1.Dir, "_scipipe_tmp*", "r.txt.out"))
+	if r1.Exit != -2 || len(partial) != 1 {
+		ctx.Res.Note("restart-on-leftover: the first run was not killed in mid-command")
+		return
+	}
+	if got, ok := readFile(r1.Dir, "r.txt.out"); ok {
+		ctx.Res.Violate(Violation{What: fmt.Sprintf("a killed run left %q at the final path", got), Class: "c01.partial-final", Witness: appendCmd})
+		return
+	}
+	r2 := RunWorkflow(d, RunOpts{Dir: r1.Dir, Timeout: 10e9})
+	if got, ok := readFile(r1.Dir, "r.txt.out"); ok && got != "AAAABBBB" {
+		ctx.Res.Violate(Violation{What: fmt.Sprintf("after a kill in mid-command and a restart without cleanup (exit %d) the final path holds %q: not the complete output of one successful command (AAAABBBB)", r2.Exit, got), Class: "c01.partial-final", Witness: appendCmd})
+	}
 }
 
 func init() { checks["C01"] = checkC01 }
